@@ -48,12 +48,13 @@ def cases(draw):
     model = []  # per unit: dict(globals=[(name, init)], funcs=[dict], unused=[...], mainblock=bool)
     marker = 0
     for ui, (uname, alias) in enumerate(units):
-        ng = draw(st.integers(0 if ui == 0 else 1, 2))
+        bare = ui > 0 and draw(st.integers(0, 5)) == 0  # a library of module-level statements only (configuration file)
+        ng = 0 if bare else draw(st.integers(0 if ui == 0 else 1, 2))
         gl = []
         for gi in range(ng):
             gl.append((GNAMES[gi], draw(st.sampled_from(["0", "1", "5", "d0.Setting", "d1.Setting + 1", "10"]))))
         funcs = []
-        nf = draw(st.integers(1, 3))
+        nf = 0 if bare else draw(st.integers(1, 3))
         for fi in range(nf):
             fname = FNAMES[fi]
             npar = draw(st.integers(0, 2))
@@ -85,20 +86,22 @@ def cases(draw):
             if has_ret:
                 ret = draw(st.sampled_from([g for g, _ in gl] + ps + [str(marker)])) + f" + {marker}"
             funcs.append({"name": fname, "npar": npar, "has_ret": has_ret, "params": ps, "body": body, "ret": ret})
-        unused = draw(st.booleans()) and ui > 0
+        unused = draw(st.booleans()) and ui > 0 and not bare
         init = []  # module-level statements with visible effects, executed once in import order
         if ui > 0:
-            for _ in range(draw(st.integers(0, 2))):
+            for _ in range(draw(st.integers(1 if bare else 0, 2))):
                 marker += 1
-                src = draw(st.sampled_from([g for g, _ in gl] + [str(100 * marker), "d1.Setting"]))
+                src = draw(st.sampled_from([g for g, _ in gl] + [str(100 * marker)] + ([] if bare and draw(st.booleans()) else ["d1.Setting"])))
                 init.append((f"d{draw(st.integers(2, 4))}.Setting", f"{src} + {marker}"))
-        mainblock = draw(st.booleans()) and ui > 0
+        mainblock = draw(st.booleans()) and ui > 0 and not bare
         model.append({"globals": gl, "funcs": funcs, "unused": unused, "mainblock": mainblock, "init": init})
     # functions of the main file call library functions (FX-D44)
     for f in model[0]["funcs"]:
         for _ in range(draw(st.integers(0, 2))):
             if len(units) > 1:
                 ui = draw(st.integers(1, len(units) - 1))
+                if not model[ui]["funcs"]:
+                    continue
                 c = model[ui]["funcs"][draw(st.integers(0, len(model[ui]["funcs"]) - 1))]
                 args = ", ".join(draw(st.sampled_from(["1", "2", "d3.Setting", f["params"][0] + " + 1" if f["params"] else "4"])) for _ in range(c["npar"]))
                 f["body"].insert(draw(st.integers(1 if f["body"] and f["body"][0][0] == "global" else 0, len(f["body"]))), ("libcall", ui, c["name"], args, c["has_ret"]))
@@ -110,8 +113,8 @@ def cases(draw):
                 args = ", ".join(draw(st.sampled_from(["1", "2", "3", "d4.Setting"])) for _ in range(f["npar"]))
                 calls.append((ui, f["name"], args, f["has_ret"]))
     if not calls:
-        f = model[-1]["funcs"][0]
-        calls.append((len(units) - 1, f["name"], ", ".join("1" for _ in range(f["npar"])), f["has_ret"]))
+        f = model[0]["funcs"][0]
+        calls.append((0, f["name"], ", ".join("1" for _ in range(f["npar"])), f["has_ret"]))
     order = draw(st.permutations(list(range(len(calls)))))
     calls = [calls[i] for i in order]
     return {"units": [list(u) for u in units], "model": model, "calls": [list(c) for c in calls],
@@ -311,6 +314,8 @@ def check_case(case, stats=None, K=oracle.K_QUICK):
             stats.classes["module-imported-for-its-module-level-code-only"] += 1
         if any(st_[0] == "libcall" for f in model[0]["funcs"] for st_ in f["body"]):
             stats.classes["library-call-inside-a-main-file-function"] += 1
+        if any(not m["funcs"] for m in model[1:]):
+            stats.classes["library-of-module-level-statements-only"] += 1
         if nmod >= 2 and collision and gw:
             stats.nontrivial.add(sha([A, opts])[:16])
             stats.sample({"modules": A, "options": opts}, limit=2)
